@@ -34,9 +34,18 @@ def login_kind(kind):
     return "login1" if kind in KINDS1 else "login2"
 
 
-def make_api(typ, ip, device_id, key):
+_SUBCLASSES = {}
+
+
+def make_api(typ, ip, device_id, key, subclass=False):
     from aioswitcher import api
     cls = api.SwitcherType1Api if typ == 1 else api.SwitcherType2Api
+    if subclass:
+        # an application's own subclass (adds nothing): whatever the library decides by class must survive inheritance
+        sub = _SUBCLASSES.get(cls)
+        if sub is None:
+            sub = _SUBCLASSES[cls] = type("My" + cls.__name__, (cls,), {"__doc__": "application subclass"})
+        cls = sub
     return cls(ip, device_id, key)
 
 
@@ -169,20 +178,20 @@ def good_script(kind, a, session, salt=1, delays=None, login_len=44):
 
 
 async def guarded(coro, timeout):
-    """("ok", result) | ("raise", exc) | ("timeout", None) - the last one only when the harness guard expired."""
-    task = asyncio.ensure_future(coro)
-    done, pending = await asyncio.wait({task}, timeout=timeout)
-    if pending:
-        task.cancel()
-        try:
-            await task
-        except BaseException:  # noqa
-            pass
-        return ("timeout", None)
+    """("ok", result) | ("raise", exc) | ("timeout", None) - the last one only when the harness guard expired.
+
+    The operation runs in the CALLER's task (no wrapper task): context variables set by the library behave as they do in an
+    application that simply awaits the call."""
+    cm = asyncio.timeout(timeout)
     try:
-        return ("ok", task.result())
+        async with cm:
+            return ("ok", await coro)
+    except TimeoutError as exc:
+        if cm.expired():
+            return ("timeout", None)
+        return ("raise", exc)
     except asyncio.CancelledError:
-        return ("raise", asyncio.CancelledError())
+        raise
     except Exception as exc:  # noqa
         return ("raise", exc)
 
@@ -190,12 +199,12 @@ async def guarded(coro, timeout):
 class Client:
     """An API object connected to the fake device, with the device-side connection record."""
 
-    def __init__(self, dev, typ, device_id, key):
+    def __init__(self, dev, typ, device_id, key, subclass=False):
         self.dev = dev
         self.typ = typ
         self.device_id = device_id
         self.key = key
-        self.api = make_api(typ, dev.ip, device_id, key)
+        self.api = make_api(typ, dev.ip, device_id, key, subclass)
         self.conn = None
 
     async def connect(self):
